@@ -39,6 +39,8 @@ class AccessMixin(object):
         return True
       if nm in extra:
         return True
+    if ch[-1] in extra:      # the sidecar drops calls of this name (e.g. the construction of a metrics object)
+      return True
     return False
 
   # ------------------------------------------------------------------ attribute
